@@ -331,6 +331,34 @@ CLAIMED = {
        "propext/Classical.choice/Quot.sound; XV.Spec.Reader as transcribed; translator (ReaderConsts); harness hx_reader, generators, Python reference reading.",
   technique="Lean 4 proof over a code-shaped reader model with translator-generated constants + model/implementation/partition correspondence",
   ref="4/C04"),
+ "C15": dict(
+  text="Lean 4 theorems over a parser object as a state machine (configuration, per-parse state, GrammarResolver+pool, progressive-scan "
+       "tokens, DOM documents; what a scan does is an abstract World). For ALL operation histories h (setFeature/setProperty incl. "
+       "SecurityManager, parse, parse aborted by a handler exception, parseFirst/parseNext/parseReset, loadGrammar, resetDocumentPool, "
+       "resetCachedGrammarPool, adoptDocument, lock/unlock, useScanner) and every document d: parse d after h delivers what a freshly "
+       "constructed parser configured with the last-writer-wins cfgOf h and the pool poolOf h delivers (history_independent, _throw, _first, "
+       "real_eq_reference), given ResetComplete. ResetComplete holds for every scanner class AS GENERATED (classes_reset_complete), derived "
+       "from statements DECIDED over data regenerated each run from the clang AST of XML/IG/WF/DG/SGXMLScanner: every member classified "
+       "(all_classified), every per-parse member - fEntityExpansionCount/Limit, fReaderMgr, fXMLVersion, ID tables, ... - re-initialised in "
+       "scanReset's call closure (reset_complete, no exceptions left), scanReset assigns no configuration member from object state "
+       "(reset_touches_no_config), configuration written only by setters/constructors (config_justified), exception lists exact "
+       "(exceptions_exact), every scan entry bumps fSequenceId. Stale progressive-scan tokens are rejected within 2^32 scans; adopted "
+       "documents are never released by the parser; a locked XMLGrammarPoolImpl is frozen under every operation except unlock, also through "
+       "GrammarResolver and the whole parser; cache/retrieve/orphan/clear contracts and the resolver's lookup order. Tied to the code by the "
+       "translator (field/assignment sets), op-sequence correspondence of the real XMLGrammarPoolImpl and GrammarResolver with the code-shaped "
+       "model (dictionary oracle), and differential testing of the 4 parser classes x 4 scanners against freshly constructed parsers configured "
+       "by the model: random histories, two-parse histories, witnesses of all repaired/open findings, entity-expansion budgets near the limit, "
+       "configuration read-back, token acceptance, locked-pool invariance, adopted documents, inline/preloaded/cached grammar matrix.",
+  note="PARTIAL: the effect of a scan is an abstract parameter (World.scan/next/load), so cached-grammar transparency (same verdicts/defaults/"
+       "types) and the parser classes' own members are covered by the differential correspondence only; reset_complete is path-insensitive and "
+       "relies on the hand-reviewed classification tools/c15_fields.json (3 reviewed exceptions: fSequenceId, the undeclared-element caches, "
+       "DG fElemCount); token staleness only within 2^32 scans. f11_history_dependent / f11_not_reset_complete are facts about the shape "
+       "scanReset had before /repo 3eb9a2e. Trusted: Lean kernel + propext/Classical.choice/Quot.sound; tools/scanner_ast.py (clang AST "
+       "extraction) + c15_fields.json; the harness's canonical dump and the generators. 9 findings repaired in /repo, 10 open "
+       "(fixes/c15-known-findings.json): operations during a live progressive scan and pool resets under a PSVI handler are generated only "
+       "as fixed witnesses because they kill the process.",
+  technique="Lean 4 proof (state-machine model; decided statements over translator-generated field sets) + model-guided differential testing of the implementation against itself",
+  ref="4/C15"),
 }
 
 def main():
